@@ -34,6 +34,7 @@ static std::vector<uint64_t> keys_dataset(int id) {
     else if (id == 1) { uint64_t x = 7; for (int i = 0; i < 3000; ++i) { x += 1 + (uint64_t(i) * 2654435761u % 97) * (i % 13 == 0 ? 1000 : 1); v.push_back(x); } }   // several levels
     else if (id == 2) { uint64_t x = 50; for (int i = 0; i < 400; ++i) { x += (i % 7 == 0) ? 40 : 0; v.push_back(x + (i % 3 == 0)); } std::sort(v.begin(), v.end()); }          // duplicates
     else if (id == 3) { double x = 10; for (int i = 0; i < 4000; ++i) { x *= 1.004; v.push_back(uint64_t(x) + uint64_t(i)); } }                       // exponential growth: first intercepts far from 0 for large epsilon
+    else if (id == 5) { v = keys_dataset(1); for (size_t i = 100; i + 100 < v.size(); ++i) v[i] += 1; }   // near twin of dataset 1: same size, span and shape, most keys one larger
     else { uint64_t x = 1000; for (int c = 0; c < 150000; ++c) { for (int j = 0; j < 4; ++j) v.push_back(++x); x += 40; } v.push_back(3000000000ull); }   // 150k segments packed into ~800 Elias-Fano buckets + one far key: the select structures get long superblocks
     return v;
 }
@@ -210,6 +211,17 @@ struct Explorer {
             }
         }
     }
+    // near twins (datasets 1 and 5): an assignment that "optimises" the case of equal-looking operands must still copy everything
+    void explore_twins() {
+        for (auto pr : std::vector<std::pair<int, int>>{{1, 5}, {5, 1}}) {
+            Index *ra = Ad::make(pr.first), *rb = Ad::make(pr.second);
+            std::string refa = Ad::digest(*ra, pr.first, run, cn), refb = Ad::digest(*rb, pr.second, run, cn); delete ra; delete rb;
+            for (auto h : std::vector<std::vector<int>>{{CA, QT}, {MA, QT}, {CA, DS, QT}, {MA, DS, QT}, {QT, CA, QT}, {CA, MS, QT}}) {
+                bool ok = true; for (int op : h) if ((op == CA && !can_ca) || (op == MA && !can_ma)) ok = false;
+                if (ok) run_history(pr.first, pr.second, true, h, refa, refb);
+            }
+        }
+    }
 
     void replay(const std::map<std::string, std::string> &m) {
         int d0 = atoi(m.at("d0").c_str()), d1 = atoi(m.at("d1").c_str()); bool ti = m.at("t_initial") == "1";
@@ -220,14 +232,15 @@ struct Explorer {
     }
 };
 
-struct ClassEntry { const char *name; void (*explore)(Run &, Cn &, int len); void (*replay)(Run &, Cn &, const std::map<std::string, std::string> &); void (*explore_big)(Run &, Cn &); };
+struct ClassEntry { const char *name; void (*explore)(Run &, Cn &, int len); void (*replay)(Run &, Cn &, const std::map<std::string, std::string> &); void (*explore_big)(Run &, Cn &); void (*explore_twins)(Run &, Cn &); };
 template<typename Ad> struct Thunk {
     static const char *&name() { static const char *n = ""; return n; }
     static void explore(Run &r, Cn &c, int len) { Explorer<Ad>{r, c, name()}.explore(len); }
     static void replay(Run &r, Cn &c, const std::map<std::string, std::string> &m) { Explorer<Ad>{r, c, name()}.replay(m); }
     static void explore_big(Run &r, Cn &c) { if constexpr (Ad::ndatasets == 4) Explorer<Ad>{r, c, name()}.explore_big(); }
+    static void explore_twins(Run &r, Cn &c) { if constexpr (Ad::ndatasets == 4) Explorer<Ad>{r, c, name()}.explore_twins(); }
 };
-#define CLS(NAME, ...) [] { Thunk<__VA_ARGS__>::name() = NAME; return ClassEntry{NAME, &Thunk<__VA_ARGS__>::explore, &Thunk<__VA_ARGS__>::replay, &Thunk<__VA_ARGS__>::explore_big}; }()
+#define CLS(NAME, ...) [] { Thunk<__VA_ARGS__>::name() = NAME; return ClassEntry{NAME, &Thunk<__VA_ARGS__>::explore, &Thunk<__VA_ARGS__>::replay, &Thunk<__VA_ARGS__>::explore_big, &Thunk<__VA_ARGS__>::explore_twins}; }()
 
 int main(int argc, char **argv) {
     auto opt = mc::parse_args(argc, argv);
@@ -259,12 +272,13 @@ int main(int argc, char **argv) {
         bool succinct = n == "EliasFano<u64,1>" || (thorough && (n == "Compressed<u64,2,0>" || n == "Compressed<u64,1,1>" || n == "EliasFano<u64,16>"));
         if (succinct) tasks.emplace_back(int(i), 1);
     }
+    for (size_t i = 0; i < classes.size(); ++i) tasks.emplace_back(int(i), 2);
     for (size_t i = 0; i < classes.size(); ++i) tasks.emplace_back(int(i), 0);
-    run.run_tasks(tasks.size(), [&](uint64_t t) { if (tasks[t].second) classes[tasks[t].first].explore_big(run, cn); else classes[tasks[t].first].explore(run, cn, len); });
+    run.run_tasks(tasks.size(), [&](uint64_t t) { if (tasks[t].second == 1) classes[tasks[t].first].explore_big(run, cn); else if (tasks[t].second == 2) classes[tasks[t].first].explore_twins(run, cn); else classes[tasks[t].first].explore(run, cn, len); });
     mc::Run::EvidenceExtra ev;
     ev.states_counter = "history_steps_executed"; ev.transitions_counter = "target_queries_compared"; ev.nontrivial_counter = "histories_that_query_the_target_after_touching_the_source"; ev.eval_counter = "histories_executed";
     ev.rule = "for each of 13 class instantiations (PGMIndex, Compressed, Bucketing, Elias-Fano, Multidimensional, Dynamic with arithmetic and string values) and every ordered pair of 3-4 datasets (single segment; several levels; duplicates / tombstones; exponential growth with first intercepts far from 0): every valid history of length <= " + std::to_string(len) +
-              " over {copy-construct, move-construct, copy-assign, move-assign (where the class provides them), destroy source, mutate source, query target} ending in a query, with the target initially absent or holding another dataset; plus, for the Elias-Fano based classes, assignments over a target that holds a 600,001-key skewed dataset whose select structures use long superblocks; oracle: the target's digest over its whole query alphabet equals the digest of a freshly built original, under AddressSanitizer (heap objects, so a destroyed source is poisoned). "
+              " over {copy-construct, move-construct, copy-assign, move-assign (where the class provides them), destroy source, mutate source, query target} ending in a query, with the target initially absent or holding another dataset; plus assignments between near-twin datasets (same size, span and shape, keys differing by one) and, for the Elias-Fano based classes, assignments over a target that holds a 600,001-key skewed dataset whose select structures use long superblocks; oracle: the target's digest over its whole query alphabet equals the digest of a freshly built original, under AddressSanitizer (heap objects, so a destroyed source is poisoned). "
               "State = one history step; non-trivial = the target is queried after the source was destroyed or mutated.";
     ev.bounds = "history length <= " + std::to_string(len) + ", 6-12 ordered dataset pairs, 2 initial target states, 13 classes";
     ev.assumptions = {"AddressSanitizer (recover mode, __asan_on_error hook) is the memory oracle", "a moved-from source is only destroyed or assigned to"};
